@@ -155,6 +155,7 @@ func runC04(r *Run, verifDir string) {
 	c.l6VectorOrder()
 	c.l7SignPad()
 	c.l8EmptyByteString()
+	c.x1Ranges("C04.L9")
 }
 
 func runC18(r *Run, verifDir string) {
@@ -163,7 +164,7 @@ func runC18(r *Run, verifDir string) {
 		"C18 is decided as `whatever a reader can return, every writer can take`: X1 for each text reader method the numeric range it can return lies inside the writers' total domain (intervals in [0, 2^32) seconds, 32-bit integers, enumerations in uint32) — established from the bit size of the parse call or a dominating bounds check; X2 every explicit panic of a writer has a precondition that X1 / C01.P5 prove for all reader outputs; X3 the alternative lexical forms accepted on input (hex numbers, prefixed forms) land in the canonical domain (same checks as C04.L1/L2/L4).")
 	r.Assume = append(r.Assume, "C01.P5 (the generic container produces only types the generic encoder accepts)", "dates are restricted to years 1..9999 by the property")
 	r.NotCov = append(r.NotCov, "idempotence of normalisation as such (byte equality of the second re-encoding): value level", "non-zero padding, over-long big integers, reordered fields: acceptance/normalisation is value level", "uniform leniency of the three Struct readers (X4 of the design) is not implemented as a rule")
-	c.x1Ranges()
+	c.x1Ranges("C18.X1")
 	c.x1ParserDomain()
 	c.x4BinaryReaderTotal()
 	c.x5TextVerbatim()
@@ -760,9 +761,9 @@ func boundedBy(v ssa.Value, at ssa.Instruction) (lo, hi *int64) {
 	return lo, hi
 }
 
-func (c *lexCtx) x1Ranges() {
+func (c *lexCtx) x1Ranges(rule string) {
 	r, p := c.r, c.p
-	r.Rule("C18.X1", "numeric range each text reader can return lies inside the writers' domain (bit size of the parse or a dominating bounds check)", 12)
+	r.Rule(rule, "numeric range each text reader can return lies inside the writers' domain and covers it (bit size of the parse or a dominating bounds check)", 12)
 	// narrowing conversions in the text readers: int64 -> int32/uint32 etc.
 	for _, fn := range textReaderFuncs(p) {
 		id := idOf(fn)
@@ -807,33 +808,44 @@ func (c *lexCtx) x1Ranges() {
 					cid := callID(&call.Call)
 					if (cid.is(ttlvPath, "", "parseUint") || cid.is("strconv", "", "ParseUint")) && len(call.Call.Args) >= 2 {
 						if b, ok := constIntVal(call.Call.Args[len(call.Call.Args)-1]); ok && b <= 32 {
-							r.OK("C18.X1", key, cv.Pos(), "interval seconds parsed unsigned on %d bits", b)
+							r.OK(rule, key, cv.Pos(), "interval seconds parsed unsigned on %d bits", b)
 							return
 						}
 					}
 				}
 				if lo != nil && *lo >= 0 && hi != nil && *hi <= 4294967295 {
-					r.OK("C18.X1", key, cv.Pos(), "interval seconds checked to lie in [%d, %d]", *lo, *hi)
+					r.OK(rule, key, cv.Pos(), "interval seconds checked to lie in [%d, %d]", *lo, *hi)
 					return
 				}
-				r.Bad("C18.X1", key, cv.Pos(), "%s converts an unbounded number into an interval: a negative value is accepted and every writer panics on re-encoding it (\"interval cannot be negative\"); a value >= 2^32 s is truncated on the wire", fnKey(fn))
+				r.Bad(rule, key, cv.Pos(), "%s converts an unbounded number into an interval: a negative value is accepted and every writer panics on re-encoding it (\"interval cannot be negative\"); a value >= 2^32 s is truncated on the wire", fnKey(fn))
 				return
 			}
 			if call, ok := origin.(*ssa.Call); ok {
 				cid := callID(&call.Call)
 				if cid.pkg == "strconv" || cid.pkg == ttlvPath && (cid.name == "parseInt" || cid.name == "parseUint") {
 					if b, ok := constIntVal(call.Call.Args[len(call.Call.Args)-1]); ok && b <= want {
-						r.OK("C18.X1", key, cv.Pos(), "value parsed on %d bits fits the %d-bit destination", b, want)
+						r.OK(rule, key, cv.Pos(), "value parsed on %d bits fits the %d-bit destination", b, want)
 						return
 					}
 				}
 				if cid.is(ttlvPath, "", "EnumByName") || cid.is(ttlvPath, "", "BitmaskByStr") {
-					r.OK("C18.X1", key, cv.Pos(), "registry value")
+					r.OK(rule, key, cv.Pos(), "registry value")
 					return
 				}
 			}
 			if lo != nil && hi != nil {
-				r.OK("C18.X1", key, cv.Pos(), "bounds [%d, %d] checked before narrowing to %d bits", *lo, *hi, want)
+				// the bounds admit no more than the destination holds, and no less: a signed 32-bit quantity is written
+				// over its whole range, so the reader must accept all of it
+				_, unsignedDst, _ := intWidth(cv.Type())
+				fullLo, fullHi := -(int64(1) << (want - 1)), (int64(1)<<(want-1))-1
+				if unsignedDst {
+					fullLo, fullHi = 0, (int64(1)<<want)-1
+				}
+				if want < 63 && (*lo > fullLo || *hi < fullHi) && *lo <= fullLo+1 && *hi >= fullHi-1 {
+					r.Bad(rule, key, cv.Pos(), "%s accepts [%d, %d] for a %d-bit destination whose range is [%d, %d]: a boundary value the writers emit (off by one in the bounds check) is rejected on reading", fnKey(fn), *lo, *hi, want, fullLo, fullHi)
+					return
+				}
+				r.OK(rule, key, cv.Pos(), "bounds [%d, %d] checked before narrowing to %d bits", *lo, *hi, want)
 				return
 			}
 			// phi of parsed values (hex/decimal/name branches): each edge must be fine
@@ -867,11 +879,11 @@ func (c *lexCtx) x1Ranges() {
 					}
 				}
 				if okAll {
-					r.OK("C18.X1", key, cv.Pos(), "every alternative (hex, decimal, name) is parsed on at most %d bits", want)
+					r.OK(rule, key, cv.Pos(), "every alternative (hex, decimal, name) is parsed on at most %d bits", want)
 					return
 				}
 			}
-			r.Bad("C18.X1", key, cv.Pos(), "%s narrows a %d-bit value to %d bits without a bounds check: an accepted input is silently altered and does not re-encode to itself", fnKey(fn), fw, want)
+			r.Bad(rule, key, cv.Pos(), "%s narrows a %d-bit value to %d bits without a bounds check: an accepted input is silently altered and does not re-encode to itself", fnKey(fn), fw, want)
 		})
 	}
 }
